@@ -156,7 +156,7 @@ func memfsConflict(x, y *memfs.Call) bool {
 
 func runMatrix(c *ev.Ctx, prop string) {
 	cells := matrixCells(c.Thorough())
-	reps := c.Sz(1, 3)
+	reps := c.Sz(1, 25)
 	for rep := 0; rep < reps; rep++ {
 		for i, cell := range cells {
 			if !c.Mine(i + rep) {
